@@ -56,14 +56,29 @@ def run(tier):
             flavour = ["single", "dev"][(i // 3) % 2]
             cxx, std = [("g++", "c++11"), ("clang++", "c++14"), ("g++", "c++17"), ("clang++", "c++17")][i % 4]
             taskcap = [None, 12][(i // 5) % 2]
-            p = en.Prog(fam, dsl, features=feats(bits), payload=payload, sublimit=sublimit, flavour=flavour, cxx=cxx, std=std, taskcap=taskcap)
-            p.label = "%s[%s %s lim%d %s %s %s%s]" % (fam, bits, payload, sublimit, flavour, cxx, std, " cap12" if taskcap else "")
-            p.family = fam
+            # the reaction order changes behaviour by design: it splits a family into two groups that are compared separately
+            bottom_up = i % 3 == 0
+            p = en.Prog(fam, dsl, features=feats(bits), payload=payload, sublimit=sublimit, flavour=flavour, cxx=cxx, std=std, taskcap=taskcap, bottom_up=bottom_up)
+            p.label = "%s[%s %s lim%d %s %s %s%s%s]" % (fam, bits, payload, sublimit, flavour, cxx, std, " cap12" if taskcap else "", " bottom-up" if bottom_up else "")
+            p.family = fam + ("/bottom-up" if bottom_up else "")
+            p.extra = []
             progs.append(p)
+    # plan-owning program, plans enabled in every row, external succeed()/fail() calls in the alphabet (status marks and their
+    # clearing are feature-configuration sensitive code: payload / void specialisations of the plan data)
+    plan_rows = [b for b in rows if b[0] == "1"] if not thorough else [b for b in COVER2 if b[0] == "1"] + ["11101111", "10000000", "11000000"]
+    for j, bits in enumerate(plan_rows):
+        payload = ["void", "int", "over"][j % 3]
+        taskcap = [None, 20][(j // 2) % 2]
+        cxx, std = [("g++", "c++17"), ("clang++", "c++14")][j % 2]
+        p = en.Prog("plannest", en.st.CURATED["plannest"], features=feats(bits), payload=payload, taskcap=taskcap, cxx=cxx, std=std)
+        p.label = "plannest+marks[%s %s %s %s%s]" % (bits, payload, cxx, std, " cap20" if taskcap else "")
+        p.family = "plannest/marks"
+        p.extra = ["--marks", "1"]
+        progs.append(p)
     ok, failed = en.build_all(progs)
     args = ["--prop", "C01,C03", "--tier", tier, "--common", "1", "--dev", "1", "--batch", "2", "--classes", str(en.cls("REQ", "GUARD", "CONSUME", "SELECT")),
             "--dev-immediate", "1", "--imm-reduced", "1", "--deadline", str(1200 if thorough else 140)]
-    results = vtlib.run_many([[p.exe] + args for p in ok], timeout=(2000 if thorough else 400))
+    results = vtlib.run_many([[p.exe] + args + p.extra for p in ok], timeout=(2000 if thorough else 400))
     groups = {}
     evaluations = 0
     samples = []
